@@ -47,6 +47,11 @@ var types = []reflect.Type{
 }
 
 const nConcrete = 6
+
+// nTypes is the size of the core universe (T0..T5, I0..I2). The types behind
+// it in `types` are the exotic ones (see below); generators only ever reach
+// them through exoticize.
+const nTypes = 9
 const (
 	tI0 = 6
 	tI1 = 7
@@ -64,7 +69,94 @@ func randIface(r *rand.Rand) int {
 var errT = reflect.TypeOf((*error)(nil)).Elem()
 var structMarkerT = reflect.TypeOf(am.Struct{})
 
-func isIface(t int) bool { return t >= nConcrete }
+func isIface(t int) bool { return t >= nConcrete && t < nTypes }
+
+// Exotic types: unnamed composite types, a defined type with the same
+// underlying type as an unnamed one (mutually assignable in Go, yet distinct
+// types for the matching rules), function and channel types. None of them
+// implements an interface of the universe, so a scenario whose types T3..T5
+// are replaced by exotic ones has exactly the same model.
+type XNames []int64
+type XCfg struct{ ID int64 }
+type XFn func() int64
+
+var exoticTypes = []reflect.Type{
+	reflect.TypeOf([]int64(nil)),          // 9  unnamed slice
+	reflect.TypeOf(XNames(nil)),           // 10 defined slice, assignable to/from 9
+	reflect.TypeOf((*XCfg)(nil)),          // 11 unnamed pointer
+	reflect.TypeOf(map[string]int64(nil)), // 12 unnamed map
+	reflect.TypeOf((func() int64)(nil)),   // 13 unnamed func
+	reflect.TypeOf(XFn(nil)),              // 14 defined func, assignable to/from 13
+	reflect.TypeOf((chan int64)(nil)),     // 15 bidirectional channel
+	reflect.TypeOf((<-chan int64)(nil)),   // 16 receive-only channel (15 is assignable to it)
+	reflect.TypeOf([2]int64{}),            // 17 unnamed array
+}
+
+func init() { types = append(types, exoticTypes...) }
+
+// usesExotic reports whether any label of s has an exotic type.
+func usesExotic(s Scenario) bool {
+	any := func(ls []Label) bool {
+		for _, l := range ls {
+			if l.Type >= nTypes {
+				return true
+			}
+		}
+		return false
+	}
+	if any(s.Inputs) || any(s.Target.In) || any(s.Target.Out) {
+		return true
+	}
+	for _, c := range s.Convs {
+		if any(c.In) || any(c.Out) {
+			return true
+		}
+	}
+	return false
+}
+
+// chanIDs maps channel pointers to provenance ids (a channel cannot carry its
+// id in a readable field).
+var chanIDs sync.Map
+
+// exoticize replaces the concrete types T3, T4, T5 of a scenario by three
+// distinct exotic types.
+func exoticize(s Scenario, r *rand.Rand) Scenario {
+	perm := r.Perm(len(exoticTypes))
+	if r.Intn(2) == 0 {
+		// two of the three are a pair that Go considers assignable
+		pair := [][2]int{{0, 1}, {4, 5}, {6, 7}}[r.Intn(3)]
+		third := perm[0]
+		for third == pair[0] || third == pair[1] {
+			third = (third + 1) % len(exoticTypes)
+		}
+		perm = []int{pair[0], pair[1], third}
+		r.Shuffle(3, func(i, j int) { perm[i], perm[j] = perm[j], perm[i] })
+	}
+	m := map[int]int{3: nTypes + perm[0], 4: nTypes + perm[1], 5: nTypes + perm[2]}
+	ml := func(ls []Label) []Label {
+		out := make([]Label, len(ls))
+		for i, l := range ls {
+			if t, ok := m[l.Type]; ok {
+				l.Type = t
+			}
+			out[i] = l
+		}
+		return out
+	}
+	t := s
+	t.Inputs = ml(s.Inputs)
+	t.Target.In, t.Target.Out = ml(s.Target.In), ml(s.Target.Out)
+	t.Convs = make([]FuncSpec, len(s.Convs))
+	for i, c := range s.Convs {
+		c.In, c.Out = ml(c.In), ml(c.Out)
+		if g, ok := m[c.GenTrig]; ok {
+			c.GenTrig = g
+		}
+		t.Convs[i] = c
+	}
+	return t
+}
 
 func implements(src, dst int) bool {
 	return isIface(dst) && src != dst && types[src].Implements(types[dst])
@@ -83,11 +175,17 @@ func typeName(t int) string {
 	if t < 0 || t >= len(types) {
 		return fmt.Sprintf("?%d", t)
 	}
+	if t >= nTypes {
+		return fmt.Sprintf("X%d", t-nTypes)
+	}
 	return types[t].Name()
 }
 
 // mk makes a value of concrete type t carrying id.
 func mk(t int, id int64) reflect.Value {
+	if t >= nTypes {
+		return mkExotic(t, id)
+	}
 	v := reflect.New(types[t]).Elem()
 	v.Field(0).SetInt(id)
 	return v
@@ -123,7 +221,78 @@ func idOf(v reflect.Value) (int64, int) {
 			return v.Field(0).Int(), i
 		}
 	}
+	for i := nTypes; i < len(types); i++ {
+		if v.Type() == types[i] {
+			return idOfExotic(v), i
+		}
+	}
 	return -2, -1
+}
+
+// mkExotic makes a value of exotic type t carrying id (id 0: the zero value).
+func mkExotic(t int, id int64) reflect.Value {
+	typ := types[t]
+	if id == 0 {
+		return reflect.Zero(typ)
+	}
+	switch typ.Kind() {
+	case reflect.Slice:
+		v := reflect.MakeSlice(typ, 1, 1)
+		v.Index(0).SetInt(id)
+		return v
+	case reflect.Ptr:
+		return reflect.ValueOf(&XCfg{ID: id})
+	case reflect.Map:
+		return reflect.ValueOf(map[string]int64{"id": id})
+	case reflect.Func:
+		f := func() int64 { return id }
+		return reflect.ValueOf(f).Convert(typ)
+	case reflect.Chan:
+		c := make(chan int64)
+		chanIDs.Store(reflect.ValueOf(c).Pointer(), id)
+		return reflect.ValueOf(c).Convert(typ)
+	case reflect.Array:
+		v := reflect.New(typ).Elem()
+		v.Index(0).SetInt(id)
+		return v
+	}
+	panic("mkExotic: " + typ.String())
+}
+
+func idOfExotic(v reflect.Value) int64 {
+	switch v.Kind() {
+	case reflect.Slice:
+		if v.Len() == 0 {
+			return 0
+		}
+		return v.Index(0).Int()
+	case reflect.Ptr:
+		if v.IsNil() {
+			return 0
+		}
+		return v.Elem().Field(0).Int()
+	case reflect.Map:
+		if v.IsNil() {
+			return 0
+		}
+		return v.MapIndex(reflect.ValueOf("id")).Int()
+	case reflect.Func:
+		if v.IsNil() {
+			return 0
+		}
+		return v.Call(nil)[0].Int()
+	case reflect.Chan:
+		if v.IsNil() {
+			return 0
+		}
+		if id, ok := chanIDs.Load(v.Pointer()); ok {
+			return id.(int64)
+		}
+		return -3
+	case reflect.Array:
+		return v.Index(0).Int()
+	}
+	return -2
 }
 
 func idOfIface(x interface{}) (int64, int) {
@@ -306,6 +475,22 @@ type failErr struct {
 	Func, Exec int
 }
 
+type zeroStructErr struct{}
+
+func (zeroStructErr) Error() string { return "generated failure (stateless sentinel)" }
+
+type zeroCodeErr int
+
+func (e zeroCodeErr) Error() string { return fmt.Sprintf("generated failure code %d", int(e)) }
+
+type nilPtrErr struct{ x int }
+
+func (e *nilPtrErr) Error() string { return "generated failure (typed nil pointer)" }
+
+type zeroStringErr string
+
+func (e zeroStringErr) Error() string { return "generated failure (empty string type)" }
+
 func (e *failErr) Error() string { return fmt.Sprintf("generated failure f%d.%d", e.Func, e.Exec) }
 
 // World holds the monitoring state shared by all generated bodies.
@@ -331,6 +516,10 @@ type World struct {
 	// UnsatErrors makes failing bodies return a (fresh) *ErrArgumentUnsatisfied
 	// obtained from an inner, unsatisfiable call instead of a *failErr.
 	UnsatErrors bool
+	// ZeroErrors (1..4) makes failing bodies return a non-nil error whose
+	// dynamic value is the zero value of its type: a stateless sentinel
+	// struct, an integer code 0, a typed nil pointer, an empty string type.
+	ZeroErrors int
 	// NextDefaults, when non-nil, is passed as is (same backing array) as the
 	// default options of the next function built.
 	NextDefaults []am.Arg
@@ -447,6 +636,16 @@ func (w *World) record(fi int, spec *FuncSpec, obs []ArgObs, concs []int, enterN
 	var err error
 	if (spec.Fail && w.FailOn == nil) || (w.FailOn != nil && spec.HasErr && w.FailOn(fi, ev.Exec, spec.Fail)) {
 		err = &failErr{fi, ev.Exec}
+		switch w.ZeroErrors {
+		case 1:
+			err = zeroStructErr{}
+		case 2:
+			err = zeroCodeErr(0)
+		case 3:
+			err = (*nilPtrErr)(nil)
+		case 4:
+			err = zeroStringErr("")
+		}
 		if w.UnsatErrors {
 			// a body that uses argmapper itself and hands on the error of an
 			// inner call: the value is an *ErrArgumentUnsatisfied
@@ -728,11 +927,17 @@ type Inst struct {
 	Convs  []*Built
 	// ConvArgs are the options carrying the converters (shared by calls).
 	ConvArgs []am.Arg
-	// InputIDs of the most recent InputArgs call.
+	// InputIDs of the most recent InputArgs call; LastCall is its call number.
 	InputIDs []int64
+	LastCall int
 	// ZeroInput1, when > 0, makes input ZeroInput1-1 the zero value of its
 	// type (id 0) in every InputArgs call.
 	ZeroInput1 int
+	// ViaSet supplies the inputs through ValueSet.Args() of a value set built
+	// with NewValueSet and filled with FromSignature (falls back to the plain
+	// options when the inputs cannot form a set).
+	ViaSet     bool
+	ViaSetUsed int
 	// GroupTyped supplies all type-only inputs without subtype through ONE
 	// Typed(a, nil, b, ...) option with nil values in between (nil values
 	// must simply be ignored).
@@ -743,7 +948,11 @@ var errDupType = errors.New("two generated functions share a Go type")
 
 // Instantiate builds all functions of s in a fresh world.
 func Instantiate(s Scenario, r *rand.Rand, targetDefaults ...am.Arg) (*Inst, error) {
-	w := NewWorld()
+	return InstantiateIn(NewWorld(), s, r, targetDefaults...)
+}
+
+// InstantiateIn builds all functions of s in the given world.
+func InstantiateIn(w *World, s Scenario, r *rand.Rand, targetDefaults ...am.Arg) (*Inst, error) {
 	in := &Inst{W: w, S: s}
 	seen := map[reflect.Type]bool{}
 	t, err := w.Build(-1, s.Target, r, targetDefaults...)
@@ -801,6 +1010,7 @@ func InputArg(l Label, id int64) am.Arg {
 func (in *Inst) InputArgs(call int) []am.Arg {
 	args := make([]am.Arg, 0, len(in.S.Inputs))
 	in.InputIDs = in.InputIDs[:0]
+	in.LastCall = call
 	var grouped []interface{}
 	for i, l := range in.S.Inputs {
 		var id int64
@@ -823,7 +1033,39 @@ func (in *Inst) InputArgs(call int) []am.Arg {
 	if len(grouped) > 0 {
 		args = append(args, am.Typed(grouped...))
 	}
+	if in.ViaSet && len(grouped) == 0 && len(in.S.Inputs) > 0 {
+		if viaSet := argsViaValueSet(in.S.Inputs, in.InputIDs); viaSet != nil {
+			in.ViaSetUsed++
+			return viaSet
+		}
+	}
 	return args
+}
+
+// argsViaValueSet hands the inputs over the way a caller forwarding a value
+// set does: NewValueSet, FromSignature, Args().
+func argsViaValueSet(ls []Label, ids []int64) (out []am.Arg) {
+	defer func() {
+		if recover() != nil {
+			out = nil
+		}
+	}()
+	vs, err := am.NewValueSet(labelsToValues(ls, nil, false))
+	if err != nil || vs == nil {
+		return nil
+	}
+	sig := vs.Signature()
+	if len(sig) != 1 || sig[0].Kind() != reflect.Struct || sig[0].NumField() != len(ls)+1 {
+		return nil
+	}
+	sv := reflect.New(sig[0]).Elem()
+	for i, l := range ls {
+		sv.Field(i + 1).Set(mk(l.Type, ids[i]))
+	}
+	if err := vs.FromSignature([]reflect.Value{sv}); err != nil {
+		return nil
+	}
+	return vs.Args()
 }
 
 // AllArgs = fresh inputs + converters, optionally shuffled.
